@@ -245,6 +245,10 @@ Loop:
 		}
 
 		if r.Owner == nil {
+			if r.Type == codec.RspOk {
+				// the reply to an ASKING sent ahead of a redirected command
+				continue
+			}
 			select {
 			case EngineGlobal.clusterChan <- r.RspBody:
 			default:
